@@ -186,6 +186,24 @@ func (e fixEvaluator) Twice(op0, op1, opOut *rlwe.Ciphertext) {
 	e.r.Add(opOut.Value[1], op1.Value[1], opOut.Value[1])
 }
 
+// DEADMETA control: the new scale is recorded and then wiped by the metadata copy
+func (e fixEvaluator) Halve(op0, opOut *rlwe.Ciphertext) {
+	e.r.MulScalar(op0.Value[0], 2, opOut.Value[0])
+	opOut.Scale = op0.Scale.Div(rlwe.NewScale(2))
+	*opOut.MetaData = *op0.MetaData
+}
+
+// LEVELUSE control: the helper is run at the level of the first operand, not at the operation level
+func (e fixEvaluator) ScaleAt(op0, op1, opOut *rlwe.Ciphertext) {
+	level := opOut.Level()
+	e.r.AtLevel(level).Add(op0.Value[0], op1.Value[0], opOut.Value[0])
+	e.atLevel(op0.Level(), opOut)
+}
+
+func (e fixEvaluator) atLevel(level int, ct *rlwe.Ciphertext) {
+	e.r.AtLevel(level).Neg(ct.Value[0], ct.Value[0])
+}
+
 // DEGLOOP control: the last component is never negated
 func (e fixEvaluator) NegHigh(op0, opOut *rlwe.Ciphertext) {
 	for i := 1; i < op0.Degree(); i++ {
